@@ -48,6 +48,7 @@ def gen_plan(rng, tier, index):
              'pat_desc': rng.pick(['grp', 'grp', 'index', 'uid'] + (['pos'] if 'pos' in spec['pat_desc'] else []))}
         if op in ('subsample', 'subsample_pattern'):
             o['picks'] = [rng.randrange(0, 12) for _ in range(rng.randint(1, 7))]
+            o['by_none'] = rng.chance(0.5)
             o['as_array'] = rng.chance(0.5)
         if op in ('reorder', 'sort_by'):
             o['perm_seed'] = rng.randrange(10 ** 6)
@@ -263,12 +264,12 @@ def execute(plan, ctx):
                 elif op == 'subsample':
                     vals = [r_distinct[p % len(r_distinct)] for p in o['picks']]
                     arg = np.array(vals) if o.get('as_array') else vals
-                    sample = src.subsample(rd, arg)
+                    sample = src.subsample(None if (rd == 'index' and o.get('by_none')) else rd, arg)
                     rdm_idx, pattern_idx = vals, None
                 elif op == 'subsample_pattern':
                     vals = [p_distinct[p % len(p_distinct)] for p in o['picks']]
                     arg = np.array(vals) if o.get('as_array') else vals
-                    sample = src.subsample_pattern(pdn, arg)
+                    sample = src.subsample_pattern(None if (pdn == 'index' and o.get('by_none')) else pdn, arg)
                     rdm_idx, pattern_idx = None, vals
                 else:
                     raise HarnessError('unknown op ' + op)
